@@ -162,6 +162,10 @@ func (c *Coder) DecodeHeader(data []byte, h *MessageHeader) (int, error) {
 
 	lenNib := (firstByte & 0xf0) >> 4
 	tkl := firstByte & 0x0f
+	if tkl > message.MaxTokenSize {
+		// token lengths 9-15 are reserved (RFC 8323 section 3.2)
+		return -1, message.ErrInvalidTokenLen
+	}
 
 	var opLen int
 	switch {
